@@ -185,6 +185,7 @@ func init() {
 			{Scenario: "mux.transfer", Params: vx.P("conns", "1", "streams", "1", "writes", "1,1", "adder", "1"), Bound: b(2, 3), Weight: 8},
 			{Scenario: "mux.transfer", Params: vx.P("conns", "2", "streams", "2", "writes", "5", "delay", "1"), Bound: b(2, 3), Weight: 9},
 			{Scenario: "mux.transfer", Params: vx.P("conns", "1", "streams", "2", "writes", "5"), Bound: b(1, 2), Weight: 7},
+			{Scenario: "mux.transfer", Params: vx.P("conns", "2", "streams", "2", "writes", "5,3", "pool", "recycle", "delay", "1"), Bound: b(1, 2), Weight: 7},
 			{Scenario: "mux.transfer", Params: vx.P("conns", "2", "streams", "1", "writes", "16133", "unit", "0", "rbuf", "20000"), Bound: b(1, 2), Weight: 3},
 			{Scenario: "mux.transfer", Params: vx.P("conns", "2", "streams", "3", "writes", "1", "delay", "1"), Bound: b(2, 3), Weight: 8},
 		}
@@ -193,9 +194,9 @@ func init() {
 		}
 		// driver (b): proxy client -> RouteTCP -> MakeSession -> dispatcher -> proxy server, and back
 		jobs = append(jobs,
-			vx.Job{Scenario: "e2e.route", Params: vx.P("numconn", "2", "apps", "2", "sizes", "3,700"), Bound: b(0, 1), Weight: 6},
+			vx.Job{Scenario: "e2e.route", Params: vx.P("numconn", "2", "apps", "2", "sizes", "3,700"), Bound: b(1, 2), Weight: 6},
 			vx.Job{Scenario: "e2e.route", Params: vx.P("numconn", "1", "apps", "1", "sizes", "40000"), Bound: b(1, 2), Weight: 8},
-			vx.Job{Scenario: "e2e.route", Params: vx.P("numconn", "0", "apps", "2", "sizes", "5,5"), Bound: b(0, 1), Weight: 6},
+			vx.Job{Scenario: "e2e.route", Params: vx.P("numconn", "0", "apps", "2", "sizes", "5,5"), Bound: b(1, 2), Weight: 6},
 			vx.Job{Scenario: "e2e.route", Params: vx.P("numconn", "3", "apps", "3", "sizes", "1", "method", "plain", "closeby", "proxy"), Bound: b(0, 1), Weight: 6},
 			vx.Job{Scenario: "e2e.route", Params: vx.P("numconn", "0", "apps", "1", "sizes", "20000", "method", "chacha20-poly1305", "closeby", "proxy"), Bound: b(1, 2), Weight: 8},
 		)
